@@ -1081,6 +1081,9 @@ func (interp *Interpreter) cfg(root *node, sc *scope, importPath, pkgName string
 					n.findex = sc.add(n.typ)
 					break
 				}
+				if err = check.operationResult(n, dest.typ, "assignment"); err != nil {
+					break
+				}
 				n.typ = dest.typ
 				n.findex = dest.findex
 				n.level = dest.level
@@ -1091,7 +1094,9 @@ func (interp *Interpreter) cfg(root *node, sc *scope, importPath, pkgName string
 				if isInterface(sc.def.typ.ret[n.findex]) && !isInterface(n.typ) {
 					// Same as above: let the return statement convert to the interface type.
 					n.findex = sc.add(n.typ)
+					break
 				}
+				err = check.operationResult(n, sc.def.typ.ret[n.findex], "return argument")
 			default:
 				// Allocate a new location in frame, and store the result here.
 				n.findex = sc.add(n.typ)
@@ -2535,6 +2540,9 @@ func (interp *Interpreter) cfg(root *node, sc *scope, importPath, pkgName string
 					n.findex = sc.add(n.typ)
 					break
 				}
+				if err = check.operationResult(n, dest.typ, "assignment"); err != nil {
+					break
+				}
 				n.typ = dest.typ
 				n.findex = dest.findex
 				n.level = dest.level
@@ -2543,6 +2551,9 @@ func (interp *Interpreter) cfg(root *node, sc *scope, importPath, pkgName string
 				if isInterface(sc.def.typ.ret[pos]) && !isInterface(n.typ) {
 					// Same as above: let the return statement convert to the interface type.
 					n.findex = sc.add(n.typ)
+					break
+				}
+				if err = check.operationResult(n, sc.def.typ.ret[pos], "return argument"); err != nil {
 					break
 				}
 				n.typ = sc.def.typ.ret[pos]
